@@ -170,6 +170,9 @@ func (r *Run) Fail(class, key, format string, a ...any) {
 		r.Eventf("KNOWN %s %s", class, key)
 		return
 	}
+	if r.Evals == 0 {
+		r.Evals = 1 // the violating evaluation itself
+	}
 	r.Eventf("VIOLATION %s %s", class, key)
 	r.Viol = &Violation{Property: r.Property, Class: class, Key: key, Detail: detail}
 	panic(stopRun{})
